@@ -63,6 +63,10 @@ func (o *OracleC07) OnOut(n *Node, st *Step, out *Out) {
 				return
 			}
 			r.commitOut = true
+			if n.inc > 1 && o.s.retransmission(n, p) {
+				o.s.note("recovered_vote_retransmitted_after_restart")
+				return // a restarted node sends again, unchanged, the commit it got back from its peers
+			}
 			if !r.preCommitOut && n.kind == FAmnesia && n.inc > 1 && n.d.MyIndex >= 0 && n.d.PreCommitPayloads[n.d.MyIndex] != nil {
 				r.preCommitOut = true // a restarted node recovered its own earlier pre-commit from its peers
 			}
